@@ -411,6 +411,10 @@ var ttlRules = []ttlRule{
 	{name: "ttl2h/max2h permit", ttl: 2 * time.Hour, max: 2 * time.Hour, bound: "permit", nbb: "permit"},
 	// max_ttl BELOW the mount default and no role ttl: the effective ttl is the clamped one
 	{name: "max20m ttl-limited", max: 20 * time.Minute, bound: "ttl-limited"},
+	// a role ttl ABOVE the mount maximum and no role max_ttl (e.g. the mount was tuned
+	// down after the role was stored): the mount maximum is the only bound left
+	{name: "ttl12h above mount max", ttl: 12 * time.Hour},
+	{name: "ttl12h above mount max, ttl-limited", ttl: 12 * time.Hour, bound: "ttl-limited"},
 }
 
 func stamp(base time.Time, rel string) string {
